@@ -38,6 +38,14 @@ class Fn:
     def __repr__(self):
         return "<Fn %s>" % self.path
 
+    def refresh(self):
+        """Re-read the record after a canonicalisation pass rewrote it."""
+        self.locals = self.rec["locals"]
+        self.blocks = self.rec["blocks"]
+        self.promoted = self.rec.get("promoted", [])
+        self._succ = self._pred = self._defs = None
+        self._cache = {}
+
     def promoted_fn(self, i):
         key = ("promoted", i)
         if key not in self._cache:
@@ -153,26 +161,59 @@ class Facts:
     def __init__(self, directory):
         self.dir = directory
         self.meta = json.load(open(os.path.join(directory, "meta.json")))
-        self.fns = {}
-        self.fn_list = []
-        with open(os.path.join(directory, "mir.jsonl")) as fh:
-            for line in fh:
-                rec = json.loads(line)
-                f = Fn(rec, self)
-                # consts also carry bodies; key them separately to avoid clashes
-                key = rec["path"] if rec["kind"] != "const" else "const " + rec["path"]
-                self.fns[key] = f
-                self.fn_list.append(f)
-        self.adts = {a["path"]: a for a in json.load(open(os.path.join(directory, "adts.json")))}
-        self.consts = {}
-        for c in json.load(open(os.path.join(directory, "consts.json"))):
-            self.consts[c["path"]] = c
-        self.impls = json.load(open(os.path.join(directory, "impls.json")))
-        accp = os.path.join(directory, "accounts.json")
-        self.accounts = {a["path"]: a for a in json.load(open(accp))} if os.path.exists(accp) else {}
+        self.crate = self.meta.get("crate", os.path.basename(directory.rstrip("/")))
+        self.canon_log = []
+        self.no_inline = set()
+        texts = {}
+        for name in ("mir.jsonl", "adts.json", "consts.json", "impls.json", "accounts.json"):
+            p = os.path.join(directory, name)
+            texts[name] = open(p).read() if os.path.exists(p) else None
+        self._parse(texts)
+        if not os.environ.get("VERIF_NO_CANON"):
+            from . import canon
+            # P1: items that merely moved / were renamed are analysed under their reference path
+            amap = canon.alias_map(self.crate,
+                                   {f.path: ([f.locals[i].get("t") for i in range(1, f.argc + 1)], f.locals[0]["t"], f.kind)
+                                    for f in self.fn_list if f.kind != "const"},
+                                   {p: (a.get("kind"), [x["name"] for x in (a.get("fields") if "fields" in a else a.get("variants", []))])
+                                    for p, a in self.adts.items() if a.get("file")})
+            if amap:
+                texts = {k: (canon.apply_aliases_text(v, amap) if v is not None else None) for k, v in texts.items()}
+                self._parse(texts)
+                for new, old in sorted(amap.items()):
+                    self.canon_log.append("moved/renamed: %s is analysed as %s" % (new, old))
+            # P2: functions the reference tree does not have are spliced into their callers
+            self.canon_log += canon.inline_new_functions(self, self.crate)
+            # P3: materialised booleans are threaded back into control flow
+            self.canon_log += canon.thread_booleans(self)
         self._callers = None
         self._by_name = None
         self._canonical_param_names()
+
+    def _parse(self, texts):
+        self.fns = {}
+        self.fn_list = []
+        for line in texts["mir.jsonl"].splitlines():
+            if not line:
+                continue
+            rec = json.loads(line)
+            f = Fn(rec, self)
+            # consts also carry bodies; key them separately to avoid clashes
+            key = rec["path"] if rec["kind"] != "const" else "const " + rec["path"]
+            self.fns[key] = f
+            self.fn_list.append(f)
+        self.adts = {a["path"]: a for a in json.loads(texts["adts.json"])}
+        self.consts = {}
+        for c in json.loads(texts["consts.json"]):
+            self.consts[c["path"]] = c
+        self.impls = json.loads(texts["impls.json"])
+        self.accounts = {a["path"]: a for a in json.loads(texts["accounts.json"])} if texts.get("accounts.json") else {}
+
+    def remove_fn(self, f):
+        self.fn_list = [g for g in self.fn_list if g is not f]
+        self.fns = {k: g for k, g in self.fns.items() if g is not f}
+        self._callers = None
+        self._by_name = None
 
     def _canonical_param_names(self):
         """The rules name parameters as they are spelled on the reference tree (specs/signatures.json, generated by
